@@ -319,20 +319,13 @@ def images_chunk(args):
             if got2 != exp2:
                 bad.append(('flash frame differs inside its rectangle %s' % ((fx, fy, fw, fh),), desc))
                 continue
-            # the second frame must cover every flashing cell that is visible
-            for ty in range(ch):
-                for tx in range(cw):
-                    if udgs[ty][tx].attr & 128 and iw.attr_index[udgs[ty][tx].attr][0] != iw.attr_index[udgs[ty][tx].attr][1]:
-                        x0, y0, x1, y1 = tx * 8 * scale, ty * 8 * scale, (tx + 1) * 8 * scale, (ty + 1) * 8 * scale
-                        vx0, vy0, vx1, vy1 = max(x0, x), max(y0, y), min(x1, x + w), min(y1, y + h)
-                        if vx0 < vx1 and vy0 < vy1:
-                            if not (fx <= vx0 - x and vx1 - x <= fx + fw and fy <= vy0 - y and vy1 - y <= fy + fh):
-                                # only a defect if the cell really looks different when flashed
-                                bad.append(('flashing cell (%d,%d) outside the second frame rectangle %s' % (tx, ty, (fx, fy, fw, fh)), desc))
-                                break
-                else:
-                    continue
-                break
+            # outside the reported rectangle flashing must change no visible pixel
+            full2 = rgbrows(render(udgs, scale, mask, x, y, w, h, iw, flash=True))
+            out_diff = [(xx, yy) for yy in range(h) for xx in range(w)
+                        if not (fx <= xx < fx + fw and fy <= yy < fy + fh) and full2[yy][xx] != exp[yy][xx]]
+            if out_diff:
+                bad.append(('pixel %s flashes but lies outside the second frame rectangle %s' % (out_diff[0], (fx, fy, fw, fh)), desc))
+                continue
         elif anim and any(u.attr & 128 for row in udgs for u in row):
             # no second frame although something flashes: legal only if flashing changes no visible pixel
             exp2 = rgbrows(render(udgs, scale, mask, x, y, w, h, iw, flash=True))
